@@ -232,6 +232,31 @@ impl CanonicalAssets {
         self.iter().all(|(x, _)| x.is_naked())
     }
 
+    /// Addition that reports an overflow of any amount instead of wrapping or panicking.
+    pub fn checked_add(self, other: Self) -> Option<Self> {
+        let mut aggregated = self.0;
+
+        for (key, value) in other.0 {
+            let entry = aggregated.entry(key).or_default();
+            *entry = entry.checked_add(value)?;
+        }
+
+        aggregated.retain(|_, &mut value| value != 0);
+
+        Some(Self(aggregated))
+    }
+
+    /// Negation that reports an overflow of any amount instead of wrapping or panicking.
+    pub fn checked_neg(self) -> Option<Self> {
+        let mut negated = self.0;
+
+        for (_, value) in negated.iter_mut() {
+            *value = value.checked_neg()?;
+        }
+
+        Some(Self(negated))
+    }
+
     pub fn as_homogenous_asset(&self) -> Option<(AssetClass, i128)> {
         if self.0.len() != 1 {
             return None;
